@@ -39,7 +39,7 @@ fn goals_ok(gs: &[G], scope: &[VarIx], dfs: bool, p: &Program) -> bool {
 pub fn goal_ok(g: &G, scope: &[VarIx], dfs: bool, p: &Program) -> bool {
     let t = |x: &T| term_ok(x, scope);
     match g {
-        G::Succeed | G::Fail | G::UserTag(_) | G::Probe(_) => true,
+        G::Succeed | G::Fail | G::UserTag(_) | G::Probe(_) | G::Observe(_) => true,
         G::Eq(a, b) | G::Neq(a, b) => t(a) && t(b),
         G::Conj(gs) | G::Closure(gs) => goals_ok(gs, scope, dfs, p),
         G::Conde(cs) => cs.iter().all(|c| goals_ok(c, scope, dfs, p)),
